@@ -836,6 +836,14 @@ impl ReceiverLinkT {
             &&& !presettled ==> omap(final(self).unsettled).dom() =~= omap(old(self).unsettled).dom().insert(r->Ok_0.delivery_tag)   // [C02.receiver.unsettled-recorded] an unsettled delivery is recorded in the receiver's unsettled map under its own tag
         }),
         final(self).local_state == old(self).local_state && final(self).rcv_settle_mode == old(self).rcv_settle_mode,
+        (old(self).local_state is Attached || old(self).local_state is IncompleteAttachExchanged) && old(self).flow_state.credit > 0 ==> ({
+            let presettled = transfer.settled is Some && transfer.settled->Some_0;
+            &&& transfer.delivery_id is None ==> r == Err::<Delivery, ReceiverTransferError>(ReceiverTransferError::DeliveryIdIsNone)       // [C15.transfer.no-delivery-id] a first transfer without a delivery-id is refused, and the application is told which field was missing ...
+            &&& transfer.delivery_id is Some && transfer.delivery_tag is None ==> r == Err::<Delivery, ReceiverTransferError>(ReceiverTransferError::DeliveryTagIsNone)       // [C15.transfer.no-delivery-tag] ... likewise the delivery-tag
+            &&& transfer.delivery_id is Some && transfer.delivery_tag is Some && !presettled && old(self).rcv_settle_mode is First && transfer.rcv_settle_mode == Some(ReceiverSettleMode::Second)
+                    ==> r == Err::<Delivery, ReceiverTransferError>(ReceiverTransferError::IllegalRcvSettleModeInTransfer) && omap(final(self).unsettled) == omap(old(self).unsettled)       // [C15.transfer.settle-mode-second-on-a-first-link] [C02.transfer.settle-mode-second-on-a-first-link] on a link negotiated as settle-first a transfer that asks for settle-second is a protocol violation: refused, nothing recorded
+            &&& r is Err && r->Err_0 is IllegalRcvSettleModeInTransfer ==> old(self).rcv_settle_mode is First && transfer.rcv_settle_mode == Some(ReceiverSettleMode::Second) && !presettled       // and ONLY then: every other combination of negotiated and per-transfer mode is legal
+        }),
 //@@ end
 
 //@@ fn file=fe2o3-amqp/src/link/receiver_link.rs impl=`~impl<Tar>endpoint::ReceiverLinkforReceiverLink<Tar>` name=on_transfer_state
@@ -897,7 +905,8 @@ impl<R, T, F, M> Link<R, T, F, M> {
                 final(self).local_state is CloseReceived && final(self).output_handle == old(self).output_handle
                 && (match detach.error { Some(e) => r == Err::<(), DetachError>(DetachError::RemoteClosedWithError(e)), None => r is Ok }),
             LinkState::DetachSent =>
-                final(self).local_state is CloseReceived && final(self).output_handle == old(self).output_handle && r is Err,
+                final(self).local_state is CloseReceived && final(self).output_handle == old(self).output_handle
+                && (match detach.error { Some(e) => r == Err::<(), DetachError>(DetachError::RemoteClosedWithError(e)), None => r == Err::<(), DetachError>(DetachError::ClosedByRemote) }),       // (a closing answer to OUR non-closing detach is reported as exactly that: the detach path re-attaches and closes on `ClosedByRemote`, unit LINKDETACH)
             LinkState::CloseSent =>
                 final(self).local_state is Closed && final(self).output_handle is None
                 && (match detach.error { Some(e) => r == Err::<(), DetachError>(DetachError::RemoteClosedWithError(e)), None => r is Ok }),
